@@ -69,54 +69,69 @@ def mergeScan (l : Log) : List Entry → MergeOut
           | none => .fatal
           | some l' => .ok l' (some e.index) (e :: es)
 
+/-- Term handling at the top of `AppendEntries` (after the stale-term rejection):
+    contact/leader bookkeeping, step to the request's term, leave (pre)candidacy. -/
+def aeEnter (n : Node) (now : Nat) (q : AEReq) : Node × List Effect :=
+  let n1 := { n with lastContact := now, leaderId := q.leaderId }
+  let r2 := if q.term > n1.term then n1.becomeFollower now q.leaderId q.term else (n1, [])
+  let r3 :=
+    if q.term = r2.1.term ∧ (r2.1.role = .candidate ∨ r2.1.role = .precandidate)
+    then r2.1.becomeFollower now q.leaderId q.term else (r2.1, [])
+  (r3.1, r2.2 ++ r3.2)
+
+/-- Result of the four previous-entry checks. -/
+inductive PrevCheck
+  | ok
+  | reject (hint : Nat)
+  | fatal
+deriving DecidableEq, Repr
+
+def aePrevCheck (n : Node) (q : AEReq) : PrevCheck :=
+  if n.snapIndex > q.prevIndex then .reject (n.snapIndex + 1) else
+  if n.log.nextIndex ≤ q.prevIndex then .reject n.log.nextIndex else
+  if n.snapIndex = q.prevIndex ∧ n.snapTerm ≠ q.prevTerm then .reject n.snapIndex else
+  if n.snapIndex < q.prevIndex then
+    match n.log.get? q.prevIndex with
+    | none => .fatal
+    | some pe =>
+      if pe.term ≠ q.prevTerm then
+        match conflictScan n.log n.snapIndex pe.term (q.prevIndex - 1) with
+        | none => .fatal
+        | some i => .reject (i + 1)
+      else .ok
+  else .ok
+
+/-- The accepting part of `AppendEntries`: merge, configuration fallback, append, commit. -/
+def aeAccept (n : Node) (now : Nat) (q : AEReq) : Node × List Effect :=
+  match mergeScan n.log q.entries with
+  | .fatal => (n, [.fatal])
+  | .ok l1 truncAt toAppend =>
+    let n4 := { n with log := l1 }
+    let r5 : Node × List Effect :=
+      match truncAt with
+      | some ti =>
+        if ti ≤ n4.config.index then
+          ((n4.nextConfiguration now n4.committed).1, [Effect.logTruncate ti] ++ (n4.nextConfiguration now n4.committed).2)
+        else (n4, [Effect.logTruncate ti])
+      | none => (n4, [])
+    let n6 := { r5.1 with log := r5.1.log.append toAppend }
+    let c := min q.leaderCommit (q.prevIndex + q.entries.length)
+    let r7 : Node × List Effect :=
+      if c > n6.commitIndex then ({ n6 with commitIndex := c }, [Effect.signalApply]) else (n6, [])
+    (r7.1, r5.2 ++ [Effect.logAppend toAppend] ++ r7.2)
+
 /-- `AppendEntries(request, response)`. -/
 def appendEntries (n : Node) (now : Nat) (q : AEReq) : Option (Node × AEResp × List Effect) :=
   if n.role = .shutdown then none else
   if q.term < n.term then some (n, { term := n.term, success := false }, []) else
-  let n1 := { n with lastContact := now, leaderId := q.leaderId }
-  let (n2, e2) := if q.term > n1.term then n1.becomeFollower now q.leaderId q.term else (n1, [])
-  let (n3, e3) :=
-    if q.term = n2.term ∧ (n2.role = .candidate ∨ n2.role = .precandidate)
-    then n2.becomeFollower now q.leaderId q.term else (n2, [])
-  let eff := e2 ++ e3
-  let rT := n2.term
-  let reject (i : Nat) : Option (Node × AEResp × List Effect) :=
-    some (n3, { term := rT, success := false, index := i }, eff)
-  if n3.snapIndex > q.prevIndex then reject (n3.snapIndex + 1) else
-  if n3.log.nextIndex ≤ q.prevIndex then reject n3.log.nextIndex else
-  if n3.snapIndex = q.prevIndex ∧ n3.snapTerm ≠ q.prevTerm then reject n3.snapIndex else
-  let prevCheck : Option (Option Nat) :=   -- none = fatal; some none = ok; some (some i) = reject i
-    if n3.snapIndex < q.prevIndex then
-      match n3.log.get? q.prevIndex with
-      | none => none
-      | some pe =>
-        if pe.term ≠ q.prevTerm then
-          match conflictScan n3.log n3.snapIndex pe.term (q.prevIndex - 1) with
-          | none => none
-          | some i => some (some (i + 1))
-        else some none
-    else some none
-  match prevCheck with
-  | none => some (n3, { term := rT, success := false }, eff ++ [.fatal])
-  | some (some i) => reject i
-  | some none =>
-    match mergeScan n3.log q.entries with
-    | .fatal => some (n3, { term := rT, success := true }, eff ++ [.fatal])
-    | .ok l1 truncAt toAppend =>
-      let n4 := { n3 with log := l1 }
-      let (n5, e5) :=
-        match truncAt with
-        | some ti =>
-          if ti ≤ n4.config.index then
-            let (m, em) := n4.nextConfiguration now n4.committed
-            (m, [Effect.logTruncate ti] ++ em)
-          else (n4, [Effect.logTruncate ti])
-        | none => (n4, [])
-      let n6 := { n5 with log := n5.log.append toAppend }
-      let lastVerified := q.prevIndex + q.entries.length
-      let c := min q.leaderCommit lastVerified
-      let (n7, e7) := if c > n6.commitIndex then ({ n6 with commitIndex := c }, [Effect.signalApply]) else (n6, [])
-      some (n7, { term := rT, success := true }, eff ++ e5 ++ [Effect.logAppend toAppend] ++ e7)
+  let r3 := aeEnter n now q
+  let rT := r3.1.term
+  match aePrevCheck r3.1 q with
+  | .reject i => some (r3.1, { term := rT, success := false, index := i }, r3.2)
+  | .fatal => some (r3.1, { term := rT, success := false }, r3.2 ++ [.fatal])
+  | .ok =>
+    let r := aeAccept r3.1 now q
+    some (r.1, { term := rT, success := true }, r3.2 ++ r.2)
 
 /-- `RequestVote(request, response)`. -/
 def requestVote (n : Node) (now : Nat) (q : RVReq) : Option (Node × RVResp × List Effect) :=
